@@ -234,6 +234,8 @@ type c24Point struct {
 	state  *crashfs.State
 	expect *c24Expect
 	ops    []string // operations issued up to this point
+	// refs[table][metadata content] = index content when that metadata version was first observed
+	refs map[string]map[string][]byte
 }
 
 type c24Run struct {
@@ -248,14 +250,19 @@ type c24Run struct {
 	opsDesc []string
 	opDats  int // number of data files when the current operation started
 
+	lastMeta map[string]string            // current metadata content per table
+	metaRef  map[string]map[string][]byte // see c24Point.refs
+
 	excluded         int  // draws reshaped because of a listed known finding
 	tailBeyondSynced bool // history truncated a tail above the synced head
+	zeroFirstItem    bool // history placed a zero-length item first in a non-tail data file
 }
 
 // Class labels of known-finding signatures (see notes/C24.md).
 const (
 	c24KnownTailBeyondSynced = "tail-truncation-beyond-synced-head"
 	c24KnownEmptyNonPrunable = "nonprunable-table-empty-after-crash"
+	c24KnownZeroFirstItem    = "zero-length-item-first-in-data-file-after-failed-batch"
 )
 
 func c24SameFiles(a, b *crashfs.State) bool {
@@ -293,7 +300,16 @@ func (r *c24Run) observe(e *c24Expect, dedupe bool) {
 	if c24DatCount(s) > r.opDats {
 		e.rollover = true
 	}
-	r.points = append(r.points, c24Point{state: s, expect: e, ops: r.opsDesc[:len(r.opsDesc):len(r.opsDesc)]})
+	r.noteMeta(s, false)
+	refs := map[string]map[string][]byte{}
+	for tn, m := range r.metaRef {
+		cp := make(map[string][]byte, len(m))
+		for k, v := range m {
+			cp[k] = v
+		}
+		refs[tn] = cp
+	}
+	r.points = append(r.points, c24Point{state: s, expect: e, ops: r.opsDesc[:len(r.opsDesc):len(r.opsDesc)], refs: refs})
 }
 
 func (r *c24Run) open() {
@@ -327,6 +343,20 @@ func (r *c24Run) opAppend() {
 				sizes[i][j] = r.cfg.limit
 			default:
 				sizes[i][j] = rapid.IntRange(0, r.cfg.limit).Draw(rt, "size")
+			}
+		}
+	}
+	// Trigger of a known-finding candidate: a zero-length item becomes the first item of
+	// a data file other than the tail file (only reachable after a failed batch left the
+	// head file advanced and empty).
+	for j, t := range r.cfg.tables {
+		tab := r.f.tables[t.name]
+		if t.noSnappy && sizes[0][j] == 0 && tab.headBytes == 0 && tab.headId > tab.tailId && failAt != 0 {
+			if vs.Known("TestVerifC24Crash", c24KnownZeroFirstItem) {
+				sizes[0][j] = 1
+				r.excluded++
+			} else {
+				r.zeroFirstItem = true
 			}
 		}
 	}
@@ -470,10 +500,35 @@ func (r *c24Run) opSync() {
 
 // barrier tells the tracker that everything currently in the directory is durable.
 func (r *c24Run) barrier() {
-	if _, err := r.tracker.Observe(); err != nil {
+	s, err := r.tracker.Observe()
+	if err != nil {
 		r.rt.Fatalf("VERIF-HARNESS-BUG: observe: %v", err)
 	}
 	r.tracker.Sync()
+	r.noteMeta(s, true)
+}
+
+// noteMeta records, for every metadata content that newly became current, the index
+// content at that observation; reset forgets older versions (after a barrier).
+func (r *c24Run) noteMeta(s *crashfs.State, reset bool) {
+	if r.metaRef == nil || reset {
+		r.metaRef = map[string]map[string][]byte{}
+		r.lastMeta = map[string]string{}
+	}
+	for i := range r.cfg.tables {
+		t := &r.cfg.tables[i]
+		meta, idx := s.File(t.metaName()), s.File(t.idxName())
+		if meta == nil || idx == nil {
+			continue
+		}
+		if r.metaRef[t.name] == nil {
+			r.metaRef[t.name] = map[string][]byte{}
+		}
+		if cur := string(meta.Data); r.lastMeta[t.name] != cur || r.metaRef[t.name][cur] == nil {
+			r.metaRef[t.name][cur] = idx.Data
+			r.lastMeta[t.name] = cur
+		}
+	}
 }
 
 func (r *c24Run) opReopen() {
@@ -519,9 +574,33 @@ func c24ParseIndex(b []byte) []c24Entry {
 
 // ---------------------------------------------------------------- image construction
 
+func c24CommonPrefix(a, b []byte) int64 {
+	n := min(len(a), len(b))
+	for i := 0; i < n; i++ {
+		if a[i] != b[i] {
+			return int64(i)
+		}
+	}
+	return int64(n)
+}
+
 // c24Image draws one crash image of the point. mode: 0 kill (nothing lost),
-// 1 everything unsynced lost, 2 lost with zero-filled extensions, 3 random.
-func c24Image(rt *rapid.T, cfg *c24Config, s *crashfs.State, mode int) crashfs.Cuts {
+// 1 everything unsynced lost, 2 lost with zero-filled extensions, 3 random,
+// 4 metadata regress (oldest recorded metadata version, files intact).
+//
+// Metadata: every metadata write is fsynced except the virtual-tail update of a
+// tail truncation, so the versions a crash can leave are the current one and its
+// predecessors that differ only in the tail field. An older version with another
+// flushOffset can only be left by a crash inside the operation that replaced it
+// (e.g. between an index truncation and the flushOffset update); it is paired
+// with otherwise intact files (modes 3 and 4).
+//
+// Coverage: the version's flushOffset F vouches for the first F index bytes as they
+// were when that version was first observed; if the index changed below F since
+// (which the unmodified code always accompanies with a new flushOffset), only the
+// unchanged prefix counts as covered.
+func c24Image(rt *rapid.T, cfg *c24Config, p *c24Point, mode int) crashfs.Cuts {
+	s := p.state
 	cuts := s.KeepAll()
 	if mode == 0 {
 		return cuts
@@ -532,24 +611,43 @@ func c24Image(rt *rapid.T, cfg *c24Config, s *crashfs.State, mode int) crashfs.C
 		if meta == nil || idx == nil {
 			rt.Fatalf("VERIF-HARNESS-BUG: table %s lacks meta or index file", t.name)
 		}
+		parse := func(i int) c24Meta {
+			mv, err := c24ParseMeta(meta.Versions[i])
+			if err != nil {
+				rt.Fatalf("VERIF-HARNESS-BUG: cannot parse observed metadata of %s: %v (%x)", t.name, err, meta.Versions[i])
+			}
+			return mv
+		}
 		// 1. metadata version
-		vi := len(meta.Versions) - 1
+		last := len(meta.Versions) - 1
+		chain := last
+		for chain > 0 && parse(chain-1).Offset == parse(last).Offset {
+			chain--
+		}
+		vi := last
 		switch mode {
 		case 1, 2:
-			vi = 0
+			vi = chain
 		case 3:
-			vi = rapid.IntRange(0, len(meta.Versions)-1).Draw(rt, t.name+"/metaVersion")
+			vi = rapid.IntRange(0, last).Draw(rt, t.name+"/metaVersion")
+		case 4:
+			vi = 0
 		}
 		cuts[meta.Name] = crashfs.Cut{Version: vi}
-		mv, err := c24ParseMeta(meta.Versions[vi])
-		if err != nil {
-			rt.Fatalf("VERIF-HARNESS-BUG: cannot parse observed metadata of %s: %v (%x)", t.name, err, meta.Versions[vi])
+		if vi < chain {
+			continue // metadata regress: the table's other files stay intact
 		}
+		mv := parse(vi)
 		// 2. index: everything below the version's flushOffset is durable by contract
-		covered := int64(mv.Offset)
-		if covered > idx.Size() {
-			covered = idx.Size()
+		ref, ok := p.refs[t.name][string(meta.Versions[vi])]
+		if !ok {
+			rt.Fatalf("VERIF-HARNESS-BUG: no reference index recorded for metadata version %x of %s", meta.Versions[vi], t.name)
 		}
+		covered := int64(mv.Offset)
+		if covered > int64(len(ref)) {
+			covered = int64(len(ref))
+		}
+		covered = c24CommonPrefix(ref[:covered], idx.Data)
 		var ic crashfs.Cut
 		lo := idx.Durable
 		if covered > lo {
@@ -901,6 +999,8 @@ func c24History(rt *rapid.T) *c24Run {
 	r := &c24Run{rt: rt, cfg: cfg, dir: dir, model: c24NewModel(cfg), salt: rapid.Uint64().Draw(rt, "salt")}
 	r.tracker = crashfs.NewTracker(dir, func(n string) bool { return strings.HasSuffix(n, ".meta") },
 		func(n string) bool { return n == "FLOCK" })
+	// index files are only ever replaced through copyFrom/reset (temp file, fsync, rename, directory sync)
+	r.tracker.AtomicReplace(func(n string) bool { return strings.HasSuffix(n, "idx") })
 	r.open()
 	r.opDats = 1 << 30
 	r.barrier()
@@ -945,6 +1045,9 @@ func c24Property(rt *rapid.T, st *vs.S) {
 	if r.tailBeyondSynced {
 		c.Class("history:" + c24KnownTailBeyondSynced)
 	}
+	if r.zeroFirstItem {
+		c.Class("history:" + c24KnownZeroFirstItem)
+	}
 	for _, d := range r.opsDesc {
 		c.Class("op:" + strings.SplitN(d, "(", 2)[0])
 	}
@@ -966,16 +1069,16 @@ func c24Property(rt *rapid.T, st *vs.S) {
 		}
 		sort.Ints(chosen)
 	}
-	modes := []int{0, 1, 2, 3, 3}
+	modes := []int{0, 1, 2, 4, 3, 3}
 	if vs.Thorough() {
-		modes = []int{0, 1, 2, 3, 3, 3}
+		modes = []int{0, 1, 2, 4, 3, 3, 3}
 	}
 	nontrivial := 0
 	for _, pi := range chosen {
 		p := &r.points[pi]
 		seen := map[uint64]bool{}
 		for _, mode := range modes {
-			cuts := c24Image(rt, r.cfg, p.state, mode)
+			cuts := c24Image(rt, r.cfg, p, mode)
 			img, err := p.state.Render(cuts)
 			if err != nil {
 				rt.Fatalf("VERIF-HARNESS-BUG: render: %v", err)
@@ -1071,4 +1174,110 @@ func TestVerifC24Crash(t *testing.T) {
 	st := vs.New("C24", t)
 	c24SetupTemp(t)
 	vs.Check(t, 1, func(rt *rapid.T) { c24Property(rt, st) })
+}
+
+// TestVerifC24Repro replays the minimal scenarios of the suspected defects written up
+// in notes/C24.md. It is skipped unless VERIF_C24_REPRO is set (it is documentation
+// that runs, not part of the check): each sub-test FAILS while the defect is present.
+func TestVerifC24Repro(t *testing.T) {
+	if os.Getenv("VERIF_C24_REPRO") == "" {
+		t.Skip("set VERIF_C24_REPRO=1 to run the defect reproductions")
+	}
+	appendN := func(t *testing.T, f *Freezer, tables []string, from uint64, sizes ...int) {
+		t.Helper()
+		_, err := f.ModifyAncients(func(op ethdb.AncientWriteOp) error {
+			for i, sz := range sizes {
+				for _, name := range tables {
+					if err := op.AppendRaw(name, from+uint64(i), bytes.Repeat([]byte{0xab}, sz)); err != nil {
+						return err
+					}
+				}
+			}
+			return nil
+		})
+		if err != nil {
+			t.Fatalf("append: %v", err)
+		}
+	}
+	copyDir := func(t *testing.T, src string) string {
+		t.Helper()
+		snap, err := crashfs.Snap(src)
+		if err != nil {
+			t.Fatal(err)
+		}
+		delete(snap.Files, "FLOCK")
+		dst := t.TempDir()
+		if err := snap.WriteTo(dst); err != nil {
+			t.Fatal(err)
+		}
+		return dst
+	}
+	// 1. process kill (no data loss at all) after "append; TruncateTail" without a sync
+	t.Run("TailAboveSyncedHead", func(t *testing.T) {
+		tables := map[string]freezerTableConfig{"a": {noSnappy: true, tailGroup: "g"}}
+		f, err := NewFreezer(t.TempDir(), "", false, 2049, tables)
+		if err != nil {
+			t.Fatal(err)
+		}
+		defer f.Close()
+		appendN(t, f, []string{"a"}, 0, 10)
+		if _, err := f.TruncateTail("g", 1); err != nil {
+			t.Fatal(err)
+		}
+		img := copyDir(t, f.datadir) // what a kill -9 leaves behind
+		if _, err := c24Open(img, &c24Config{maxSize: 2049, tables: []c24Table{{name: "a", noSnappy: true, group: "g"}}}); err != nil {
+			t.Fatalf("reopen after process kill failed: %v", err)
+		}
+	})
+	// 2. process kill inside the first batch, after one table rolled over to a new data file
+	t.Run("EmptyNonPrunableTable", func(t *testing.T) {
+		tables := map[string]freezerTableConfig{"big": {noSnappy: true}, "small": {noSnappy: true}}
+		f, err := NewFreezer(t.TempDir(), "", false, 64, tables)
+		if err != nil {
+			t.Fatal(err)
+		}
+		defer f.Close()
+		var img string
+		f.ModifyAncients(func(op ethdb.AncientWriteOp) error {
+			for i := uint64(0); i < 4; i++ {
+				op.AppendRaw("big", i, bytes.Repeat([]byte{1}, 30)) // third item rolls "big" over (and syncs it)
+				op.AppendRaw("small", i, []byte{2})
+			}
+			img = copyDir(t, f.datadir)
+			return nil
+		})
+		cfg := &c24Config{maxSize: 64, tables: []c24Table{{name: "big", noSnappy: true}, {name: "small", noSnappy: true}}}
+		if _, err := c24Open(img, cfg); err != nil {
+			t.Fatalf("reopen after process kill inside the first batch failed: %v", err)
+		}
+	})
+	// 3. no crash at all: failed batch after a rollover, then a zero-length item, then clean close/reopen
+	t.Run("ZeroLengthFirstItem", func(t *testing.T) {
+		tables := map[string]freezerTableConfig{"a": {noSnappy: true}}
+		dir := t.TempDir()
+		f, err := NewFreezer(dir, "", false, 64, tables)
+		if err != nil {
+			t.Fatal(err)
+		}
+		appendN(t, f, []string{"a"}, 0, 30, 30)
+		f.ModifyAncients(func(op ethdb.AncientWriteOp) error {
+			op.AppendRaw("a", 2, bytes.Repeat([]byte{3}, 30)) // does not fit: head advances to file 1
+			return errC24Injected
+		})
+		appendN(t, f, []string{"a"}, 2, 0, 5, 5)
+		if n, _ := f.Ancients(); n != 5 {
+			t.Fatalf("head %d", n)
+		}
+		if err := f.Close(); err != nil {
+			t.Fatal(err)
+		}
+		f, err = NewFreezer(dir, "", false, 64, tables)
+		if err != nil {
+			t.Fatal(err)
+		}
+		defer f.Close()
+		if n, _ := f.Ancients(); n != 5 {
+			t.Fatalf("clean close and reopen lost items: Ancients()=%d, want 5", n)
+		}
+	})
 }
